@@ -1,89 +1,489 @@
-"""C14 -- Deferred-returning tests succeed iff all completed cleanly; reactor left clean."""
+"""C14 -- Deferred-returning tests succeed iff all completed cleanly; reactor left clean.
 
-import ast
+Everything is decided on abstract runs.  _run_core is interpreted for every combination of its problem sources
+(outcome of the blocking run, logged errors, unhandled Deferreds, reactor junk) against symbolic fixtures /
+spinner / result objects whose calls are logged in order; _run_deferred, _run_user and _run_cleanups are
+interpreted with Twisted's Deferred chains as abstract values (rules/deferredmodel.py), one run per outcome
+of every stage.  The rules read the call logs and final values -- not the layout of the code.
+"""
 
-from ..absint import EMPTY, FALSE, NONE, NONEMPTY, NOTNONE, TOP, TRUE, DefaultDomain, Interp, Result, State, exc, val
-from ..astutil import FUNC_TYPES, attr_chain, dotted, norm, walk_shallow
-from ..cfg import handler_is_catch_all, handler_names, live_nodes, node_calls
-from ..loader import AnalysisError, Undecided
-from .common import TWRUNTEST, cfg_of, kw_value, nodes_calling, own_method
+from .. import effects
+from ..absint import FALSE, NONE, TRUE, State
+from ..astutil import FUNC_TYPES
+from ..loader import AnalysisError
+from .common import TWRUNTEST
+from .deferredmodel import DeferredDomain, is_dfr, is_failure
 
 EXPLANATION = (
-    "R-SINGLE-SUCCESS: truth/emptiness abstract interpretation of AsynchronousDeferredRunTest._run_core over "
-    "the 2x2x2x2 combinations of its four problem sources (result of the blocking run, flushed logged errors, "
-    "unhandled Deferreds, reactor junk): addSuccess is delivered at most once and exactly when all four are "
-    "clean; each non-empty source records an exception through _got_user_failure / _log_user_exception, so "
-    "the dispatch of C01 reports exactly one outcome. R-CATCH-ALL: every place in the Twisted runners where "
-    "user code or a user Deferred's failure surfaces is covered by a catch-all (an errback handing the Failure "
-    "to _got_user_failure, or `except BaseException`) -- sibling agreement with RunTest._run_user. "
-    "R-STAGE-CHAIN: _run_deferred chains setUp -> (test -> tearDown) -> cleanups -> forced failure and "
-    "collects a failure marker for every stage that reported the sentinel. R-OBSERVER-PAIR: every observer "
-    "removed / added by the log fixtures is re-added / removed by a cleanup registered in the same iteration, "
-    "and the blocking run happens inside both `with` blocks. R-SPINNER-ERRORS-HANDLED: TimeoutError and "
-    "NoResultError from the spinner each have a handler that records an exception; the interrupt arm asks the "
-    "result to stop. Timing, reactor behaviour and Deferred firing order are runtime behaviour and are not "
-    "decided."
+    "Abstract runs of the Twisted runner (effect logs + a Deferred-chain model). R-SINGLE-SUCCESS: "
+    "AsynchronousDeferredRunTest._run_core for the 24 combinations of its four problem sources (blocking run "
+    "ok / failed / timed out / interrupted; logged errors, unhandled Deferreds, reactor junk present or not): "
+    "addSuccess(case, details=case.getDetails()) is sent exactly once iff all sources are clean, every logged error "
+    "and every unhandled Deferred's failure is recorded through _got_user_failure exactly once, junk through "
+    "_log_user_exception(UncleanReactorError(junk)), and every source is collected exactly once on every path; "
+    "_run_deferred fires with True iff no stage failed, no cleanup failed and no failure was forced. R-CATCH-ALL: "
+    "_run_user (both runners) turns any exception of the user function into a recorded failure and a sentinel "
+    "result; _run_cleanups runs every cleanup, LIFO, also after one of them raised an Exception or a "
+    "BaseException, reports each failure's traceback and returns the last exception; _log_user_exception records "
+    "through _got_user_exception(sys.exc_info()). R-STAGE-CHAIN: for every outcome of setUp / test / tearDown / "
+    "cleanups / force_failure the stages called are setUp, then (test, tearDown) iff setUp succeeded, then the "
+    "cleanups, then the forced failure iff requested; a cleanup failure is appended to _exceptions. "
+    "R-OBSERVER-PAIR: the log fixtures register the restoring cleanup for every observer they removed / added, "
+    "also when a later removal / addition raises; the blocking run happens inside both fixtures and both are "
+    "exited on every path; _get_log_fixture selects fixtures by option; _get_global_publisher_and_observers returns "
+    "the publisher with all its observers. R-SPINNER-ERRORS-HANDLED: a timeout is recorded through "
+    "_log_user_exception(TimeoutError(case, timeout)), an interrupt through _got_user_exception(sys.exc_info()) "
+    "plus result.stop(), and the run is spun as trap_unhandled_errors(spinner.run, timeout, _run_deferred). "
+    "Timing, reactor behaviour and real Deferred firing order are runtime behaviour and are not decided."
 )
 
 ADRT = "AsynchronousDeferredRunTest"
+CASE, RES, SPINNER, LOGFIX, ERROBS = ("wobj", "case"), ("wobj", "res"), ("wobj", "spinner"), ("wobj", "logfix"), ("wobj", "errobs")
+TIMEOUT, RUN_DEFERRED = ("sym", "timeout"), ("sym", "run_deferred")
+EXCINFO = ("tuple", ("sym", "etype"), ("sym", "evalue"), ("sym", "etb"))
+L1, L2 = ("sym", "logged-1"), ("sym", "logged-2")
+D1, D2 = ("wobj", "dbg1"), ("wobj", "dbg2")
+J1 = ("sym", "junk-1")
+SENTINEL = ("sym", "exception_caught")
+USER_ERROR, INTERRUPT = ("exc", "UserError"), ("exc", "KeyboardInterrupt")
+RECORDERS = ("self._got_user_failure", "self._log_user_exception", "self._got_user_exception")
 
 
-class CoreDomain(DefaultDomain):
-    def __init__(self, brd=None):
-        self.brd = brd
+def _method(ctx, clsname, name):
+    cls = ctx.classes.get(TWRUNTEST, clsname)
+    owner, f = ctx.classes.resolve_method(cls, name)
+    if not isinstance(f, FUNC_TYPES) or owner is None or owner.external:
+        raise AnalysisError(f"anchor vanished: {clsname}.{name}")
+    return cls, f
 
-    def match(self, handler_type, excvalue, st):
-        if handler_type is None:
-            return "yes"
-        names = [norm(t).split(".")[-1] for t in (handler_type.elts if isinstance(handler_type, ast.Tuple) else [handler_type])]
-        if isinstance(excvalue, tuple) and len(excvalue) == 2 and excvalue[0] == "spinner":
-            return "yes" if excvalue[1] in names or "BaseException" in names or "Exception" in names else "no"
-        return "maybe"
 
-    def iter_kind(self, v):
-        if v == EMPTY:
-            return "empty"
-        if v == NONEMPTY:
-            return "nonempty"
-        return "unknown"
+class CoreDomain(effects.EffectDomain):
+    enter_returns_self = True
 
     def call(self, interp, call, st, fr):
-        d = dotted(call.func)
-        out = []
-        argexprs = [a.value if isinstance(a, ast.Starred) else a for a in call.args] + [k.value for k in call.keywords]
-        for r in interp.eval_list(argexprs, st, fr):
-            if r.kind == "exc":
-                out.append(r)
-                continue
-            s = r.state
-            if d == "self._blocking_run_deferred" and self.brd is not None:
-                # inlined: what the handlers of spinner errors return decides what _run_core does next
-                params = [p_.arg for p_ in self.brd.args.args][1:]
-                out.extend(interp.inline(self.brd, {params[i]: v for i, v in enumerate(r.value) if i < len(params)}, s, fr, receiver=fr.receiver))
-            elif d == "trap_unhandled_errors":
+        from ..astutil import dotted
+        if (dotted(call.func) or "") == "trap_unhandled_errors":
+            out = []
+            for r in interp.eval_list(list(call.args), st, fr):
+                if r.kind == "exc":
+                    out.append(r)
+                    continue
+                log = r.state.get("ev.calls", ())
+                s = r.state.set("ev.calls", log + (("trap_unhandled_errors", tuple(r.value), (), "ok"),))
                 for ok, lab in ((TRUE, "ok"), (FALSE, "failed")):
-                    for un in (EMPTY, NONEMPTY):
-                        out.append(val(("tuple", ok, un), s.set("src.run", lab).set("src.unhandled", un)))
-                out.append(exc(("spinner", "TimeoutError"), s.set("src.run", "timeout").set("src.unhandled", EMPTY)))
-                out.append(exc(("spinner", "NoResultError"), s.set("src.run", "interrupted").set("src.unhandled", EMPTY)))
-            elif d == "self.result.stop":
-                out.append(val(NONE, s.set("ev.stop", 1)))
-            elif d and d.endswith(".flush_logged_errors"):
-                for v in (EMPTY, NONEMPTY):
-                    out.append(val(v, s.set("src.logged", v)))
-            elif d and d.endswith(".clear_junk"):
-                for v in (EMPTY, NONEMPTY):
-                    out.append(val(v, s.set("src.junk", v)))
-            elif d in ("self._got_user_failure", "self._log_user_exception", "self._got_user_exception"):
-                out.append(val(TOP, s.set("ev.recorded", min(s.get("ev.recorded", 0) + 1, 2)).set("ev.rec_for", s.get("ev.rec_for", ()) + (d.split("_")[-1] if False else ()), )))
-            elif d == "self.result.addSuccess":
-                out.append(val(NONE, s.set("ev.success", min(s.get("ev.success", 0) + 1, 2))))
-            else:
-                out.append(val(TOP, s))
-        return out
+                    for un, ulab in ((("tuple",), "no"), (("tuple", D1, D2), "yes")):
+                        out.append(effects.val(("tuple", ok, un), s.set("src.run", lab).set("src.unhandled", ulab)))
+                out.append(effects.exc(("exc", "TimeoutError"), s.set("src.run", "timeout").set("src.unhandled", "no")))
+                out.append(effects.exc(("exc", "NoResultError"), s.set("src.run", "interrupted").set("src.unhandled", "no")))
+            return out
+        return super().call(interp, call, st, fr)
 
-    def with_enter(self, interp, item, value, st, fr):
+
+def check_run_core(ctx):
+    cls, core = _method(ctx, ADRT, "_run_core")
+    Q = f"{TWRUNTEST}:{ADRT}"
+
+    def oracle(n, pos, kw):
+        if n == "errobs.flush_logged_errors":
+            return [("val", ("tuple",), "none"), ("val", ("tuple", L1, L2), "some")]
+        if n == "spinner.clear_junk":
+            return [("val", ("tuple",), "none"), ("val", ("tuple", J1), "some")]
+        if n.endswith("._getDebugTracebacks"):
+            return [("val", NONE if n.startswith("dbg1") else ("const", "debug traceback"))]
+        if n == "logfix.getDetails":
+            return [("val", ("wobj", "details"))]
+        if n == "details.items":
+            return [("val", ("tuple", ("tuple", ("const", "twisted-log"), ("sym", "log-detail"))))]
+        if n.startswith(("case.", "res.", "logfix.", "errobs.", "spinner.")):
+            return [("val", ("ret", n))]
         return None
+
+    dom = CoreDomain(ctx.classes, attrs={"self": ("self",), "self.case": CASE, "self.result": RES, "self._timeout": TIMEOUT, "self._run_deferred": RUN_DEFERRED},
+                     results={"self._make_spinner": [SPINNER], "self._get_log_fixture": [LOGFIX], "_ErrorObserver": [ERROBS],
+                              "text_content": [("sym", "text")], "self._got_user_failure": [SENTINEL], "self._got_user_exception": [SENTINEL], "self._log_user_exception": [NONE]},
+                     track=lambda d: d in RECORDERS, oracle=oracle, ctors={"UncleanReactorError", "TimeoutError"}, log_cap=60)
+    res = effects.run(ctx, dom, core, cls, {}, state=State(), depth=4)
+    combos = {}
+    for r in res:
+        s = r.state
+        log = s.get("ev.calls", ())
+        if s.get("ev.calls.overflow", 0):
+            raise AnalysisError("_run_core: the call log of the abstract run overflowed")
+        tag = lambda name: next((e[3] for e in log if e[0] == name), "NOT COLLECTED")
+        yn = {"none": "no", "some": "yes"}
+        key = (s.get("src.run", "NOT RUN"), yn.get(tag("errobs.flush_logged_errors"), "NOT COLLECTED"), s.get("src.unhandled", "?"), yn.get(tag("spinner.clear_junk"), "NOT COLLECTED"))
+        combos.setdefault(key, []).append(r)
+    for key, rs in sorted(combos.items()):
+        run, logged, unhandled, junk = key
+        label = f"run={run} logged-errors={logged} unhandled={unhandled} junk={junk}"
+        problems = set()
+        if "NOT COLLECTED" in key or run == "NOT RUN":
+            what = ("the errors logged during the test are not flushed from the (process-wide) observer" if logged == "NOT COLLECTED" else
+                    "the spinner's junk is not collected" if junk == "NOT COLLECTED" else "the blocking run is skipped")
+            problems.add(f"{what}: it is neither reported for this test nor discarded, and surfaces in the next test run in the same process")
+        clean = run == "ok" and logged == "no" and unhandled == "no" and junk == "no"
+        for r in rs:
+            log = r.state.get("ev.calls", ())
+            if r.kind == "exc":
+                problems.add(f"_run_core raises {r.value!r}")
+                continue
+            succ = [e for e in log if e[0] == "res.addSuccess"]
+            if len(succ) != (1 if clean else 0):
+                problems.add(f"addSuccess is sent {len(succ)} time(s): " + ("success must be reported exactly once" if clean else "no success may be reported"))
+            for e in succ:
+                if e[1] != (CASE,) or dict(e[2]).get("details") != ("ret", "case.getDetails"):
+                    problems.add("addSuccess is not sent as addSuccess(case, details=case.getDetails())")
+            for name in ("errobs.flush_logged_errors", "spinner.clear_junk", "trap_unhandled_errors"):
+                if sum(1 for e in log if e[0] == name) > 1:
+                    problems.add(f"{name.split('.')[-1]} is called more than once")
+            guf = [e for e in log if e[0] == "self._got_user_failure"]
+            want = ([L1, L2] if logged == "yes" else []) + ([("bound", "dbg1", "failResult"), ("bound", "dbg2", "failResult")] if unhandled == "yes" else [])
+            got = [e[1][0] if e[1] else None for e in guf]
+            if sorted(map(repr, got)) != sorted(map(repr, want)):
+                problems.add(f"_got_user_failure is called for {got}; expected exactly once for each logged error and for the failResult of each unhandled Deferred ({want})")
+            lue = [e[1][0] if e[1] else None for e in log if e[0] == "self._log_user_exception"]
+            want_lue = []
+            if run == "timeout":
+                want_lue.append(("new", "TimeoutError", (CASE, TIMEOUT), ()))
+            if junk == "yes":
+                want_lue.append(("new", "UncleanReactorError", (("tuple", J1),), ()))
+            if lue != want_lue:
+                problems.add(f"_log_user_exception is called with {lue}; expected {want_lue} (TimeoutError(case, timeout) for a timeout, UncleanReactorError(junk) for junk)")
+            gue = [e for e in log if e[0] == "self._got_user_exception"]
+            stops = [e for e in log if e[0] == "res.stop"]
+            if run == "interrupted":
+                if [e[1] for e in gue] != [(effects.exc_info_of(("exc", "NoResultError")),)]:
+                    problems.add("an interrupted run is not recorded through _got_user_exception(sys.exc_info())")
+                if len(stops) != 1:
+                    problems.add(f"an interrupted run asks the result to stop {len(stops)} times (expected once)")
+            elif gue or stops:
+                problems.add("_got_user_exception / result.stop() are used although the run was not interrupted")
+            # the reactor is spun inside both fixtures, which are left on every path
+            names = [e[0] for e in log]
+            if "trap_unhandled_errors" in names:
+                ti = names.index("trap_unhandled_errors")
+                for fx in ("logfix", "errobs"):
+                    if f"{fx}.__enter__" not in names[:ti] or f"{fx}.__exit__" not in names[ti:]:
+                        problems.add(f"the reactor is spun outside the {'log fixture' if fx == 'logfix' else 'error observer'}: observers would not be restored / errors not captured on timeout or interrupt")
+                if log[ti][1] != (("bound", "spinner", "run"), TIMEOUT, RUN_DEFERRED):
+                    problems.add("the run is not spun as trap_unhandled_errors(spinner.run, self._timeout, self._run_deferred)")
+                if "errobs.flush_logged_errors" in names and names.index("errobs.flush_logged_errors") < ti:
+                    problems.add("logged errors are flushed before the test ran")
+            for fx in ("logfix", "errobs"):
+                if names.count(f"{fx}.__enter__") != names.count(f"{fx}.__exit__"):
+                    problems.add(f"a path leaves _run_core with the {fx} fixture still entered")
+        rule = "R-SPINNER-ERRORS-HANDLED" if run in ("timeout", "interrupted") else "R-SINGLE-SUCCESS"
+        ctx.check(rule, f"_run_core: {label}", core, not problems, f"with {label}: " + "; ".join(sorted(problems)), examined=len(rs), construct=f"{Q}._run_core::{label}")
+    ctx.check("R-SINGLE-SUCCESS", f"all 24 combinations of the problem sources explored ({len(combos)})", core, len(combos) == 24,
+              f"{len(combos)} combinations were reached (16 for a completed run, 4 each for a timed-out and an interrupted one): {sorted(combos)[:4]}...", examined=len(res), construct=f"{Q}._run_core::combos")
+
+
+# ------------------------------------------------------------------------------------------------ the stage chain
+def stage_domain(ctx, force, cleanup_outcomes=None, recorder_raises=False):
+    def oracle(n, pos, kw):
+        if n in ("case._run_setup", "case._run_test_method", "case._run_teardown"):
+            return [("val", ("ret", n)), ("exc", USER_ERROR)]
+        return None
+
+    attrs = {"self": ("self",), "self.case": CASE, "self.result": RES, "self.exception_caught": SENTINEL, "case.force_failure": TRUE if force else FALSE}
+    dom = DeferredDomain(ctx.classes, attrs=attrs, results={"self._got_user_failure": [SENTINEL]}, track=lambda d: d == "self._got_user_failure", oracle=oracle, log_cap=40,
+                         raises={"self._got_user_failure": [("exc", "HandlerError")]} if recorder_raises else None,
+                         dfr_results={"self._run_cleanups": cleanup_outcomes if cleanup_outcomes is not None else [("ok", NONE), ("ok", ("sym", "cleanup-exc"))]})
+    return dom
+
+
+def check_stage_chain(ctx):
+    cls, rd = _method(ctx, ADRT, "_run_deferred")
+    Q = f"{TWRUNTEST}:{ADRT}"
+    scenarios = {}
+    n_paths = 0
+    for force in (False, True):
+        dom = stage_domain(ctx, force, [("ok", NONE)])
+        res = effects.run(ctx, dom, rd, cls, {}, state=State([("self._exceptions", ("tuple",))]), depth=8)
+        n_paths += len(res)
+        for r in res:
+            log = r.state.get("ev.calls", ())
+            fate = {}
+            for e in log:
+                if e[0].startswith("case._run_"):
+                    fate[e[0][len("case._run_"):]] = "ok" if e[3] == "ok" else "fails"
+            key = (fate.get("setup", "-"), fate.get("test_method", "-"), fate.get("teardown", "-"), "forced" if force else "not-forced")
+            scenarios.setdefault(key, []).append(r)
+    order, verdict, recorded, cleanup_rec, args = set(), set(), set(), set(), set()
+    for key, rs in sorted(scenarios.items()):
+        setup, test, teardown, forced = key
+        label = f"setUp {setup}, test {test}, tearDown {teardown}, {forced}"
+        for r in rs:
+            log = r.state.get("ev.calls", ())
+            if r.kind != "val" or not is_dfr(r.value):
+                verdict.add(f"[{label}] _run_deferred does not return a Deferred ({r.kind} {r.value!r})")
+                continue
+            stages = [e[0].split(".")[-1] for e in log if e[0].startswith("case._run_") or e[0] == "self._run_cleanups"]
+            want = ["_run_setup"] + (["_run_test_method", "_run_teardown"] if setup == "ok" else []) + ["_run_cleanups"]
+            if stages != want:
+                order.add(f"[{label}] the stages run are {stages}; expected {want} (the test only after a successful setUp, tearDown after the test whatever happened, cleanups always and last)")
+                continue
+            for e in log:
+                if e[0].startswith("case._run_") and e[1] != (RES,):
+                    args.add(f"{e[0].split('.')[-1]} is not called with the runner's result")
+            n_fail = sum(1 for e in log if e[0].startswith("case._run_") and e[3] != "ok")
+            guf = [e for e in log if e[0] == "self._got_user_failure"]
+            n_forced = 1 if forced == "forced" else 0
+            if len(guf) != n_fail + n_forced or any(not (e[1] and is_failure(e[1][0])) for e in guf):
+                recorded.add(f"[{label}] {n_fail} stage(s) failed{' and a failure is forced' if n_forced else ''} but _got_user_failure received {len(guf)} Failure(s): every exception of user code must be recorded exactly once")
+            else:
+                excs = [e[1][0][1] for e in guf]
+                if excs[:n_fail] != [USER_ERROR] * n_fail or (n_forced and excs[-1][:2] != ("exc", "AssertionError")):
+                    recorded.add(f"[{label}] the failures recorded are {excs}")
+            final = dom.result_of(r.state, r.value)
+            pending = r.state.get(f"dfr.{r.value[1]}.cbs", ())
+            ok_expected = n_fail == 0 and not n_forced
+            if final not in (("ok", TRUE), ("ok", FALSE)) or pending:
+                verdict.add(f"[{label}] the Deferred ends with {final!r}: expected it to fire with True or False")
+            elif (final == ("ok", TRUE)) != ok_expected:
+                verdict.add(f"[{label}] the Deferred fires with {final[1]}: expected {'True' if ok_expected else 'False'} (True iff every stage and cleanup succeeded and no failure was forced)")
+            if r.state.get("self._exceptions", None) != ("tuple",):
+                cleanup_rec.add(f"[{label}] the cleanups succeed but self._exceptions ends up as {r.state.get('self._exceptions', None)!r}")
+    # a failing cleanup, whatever the stages did
+    dom = stage_domain(ctx, False, [("ok", ("sym", "cleanup-exc"))])
+    for r in effects.run(ctx, dom, rd, cls, {}, state=State([("self._exceptions", ("tuple",))]), depth=8):
+        n_paths += 1
+        if r.kind != "val" or not is_dfr(r.value):
+            continue
+        final = dom.result_of(r.state, r.value)
+        excs = r.state.get("self._exceptions", None)
+        if excs != ("tuple", ("sym", "cleanup-exc")):
+            cleanup_rec.add(f"the exception returned by the cleanups is not appended to self._exceptions (it holds {excs!r}): a failing cleanup would not be reported")
+        if final != ("ok", FALSE):
+            cleanup_rec.add(f"a cleanup fails, yet the Deferred fires with {final!r}: the test could be reported successful")
+    # recording a failure can itself raise (a handler registered with addOnException is user code): the stages that
+    # must run whatever happened still run, and the run is not reported successful
+    dom = stage_domain(ctx, False, [("ok", NONE)], recorder_raises=True)
+    by_stage = {}
+    for r in effects.run(ctx, dom, rd, cls, {}, state=State([("self._exceptions", ("tuple",))]), depth=8):
+        n_paths += 1
+        log = r.state.get("ev.calls", ())
+        failed = [e[0][len("case._run_"):] for e in log if e[0].startswith("case._run_") and e[3] != "ok"]
+        broke = [e for e in log if e[0] == "self._got_user_failure" and e[3] != "ok"]
+        if len(failed) == 1 and len(broke) == 1:
+            by_stage.setdefault(failed[0], []).append(r)
+    for stage, label in (("setup", "setUp"), ("test_method", "the test method"), ("teardown", "tearDown")):
+        problems = set()
+        rs = by_stage.get(stage, [])
+        if not rs:
+            problems.add("the scenario was not reached by the model")
+        for r in rs:
+            log = r.state.get("ev.calls", ())
+            stages = [e[0].split(".")[-1] for e in log if e[0].startswith("case._run_") or e[0] == "self._run_cleanups"]
+            want = ["_run_setup"] + (["_run_test_method", "_run_teardown"] if stage != "setup" else []) + ["_run_cleanups"]
+            if stages != want:
+                problems.add(f"the stages run are {stages} (expected {want}: tearDown and the cleanups run whatever happened)")
+            final = dom.result_of(r.state, r.value) if r.kind == "val" and is_dfr(r.value) else None
+            if final == ("ok", TRUE):
+                problems.add("the Deferred fires with True: the runner reports addSuccess for a test whose stage raised")
+            elif final == ("ok", FALSE) and r.state.get("self._exceptions", None) == ("tuple",):
+                problems.add("the run fails but no exception is kept in self._exceptions: no outcome at all would be reported for the test")
+        ctx.check("R-SINGLE-SUCCESS", f"_run_deferred: {label} fails and recording the failure raises as well (an addOnException handler that raises)", rd, not problems,
+                  f"when {label} fails and _got_user_failure raises while recording it: " + "; ".join(sorted(problems)), examined=len(rs),
+                  construct=f"{Q}._run_deferred::recorder raises while recording a failure of {label}")
+    want_keys = {(s, t, d, f) for f in ("forced", "not-forced") for (s, t, d) in (("fails", "-", "-"), ("ok", "ok", "ok"), ("ok", "ok", "fails"), ("ok", "fails", "ok"), ("ok", "fails", "fails"))}
+    missing = want_keys - set(scenarios)
+    if missing and not order:
+        order.add(f"the outcomes {sorted(missing)[:3]} of the stages were never reached")
+
+    def chk(rule, name, problems):
+        ctx.check(rule, f"_run_deferred: {name}", rd, not problems, "; ".join(sorted(problems)[:4]), examined=n_paths, construct=f"{Q}._run_deferred::{name}")
+
+    chk("R-STAGE-CHAIN", "setUp, then test and tearDown iff setUp succeeded, then the cleanups -- for every outcome of every stage", order)
+    chk("R-STAGE-CHAIN", "every stage is handed the runner's result", args)
+    chk("R-STAGE-CHAIN", "a cleanup failure is recorded in _exceptions and fails the run", cleanup_rec)
+    chk("R-CATCH-ALL", "every failure of a stage (and the forced failure) reaches _got_user_failure exactly once", recorded)
+    chk("R-SINGLE-SUCCESS", "the Deferred fires with True iff no stage failed, no cleanup failed and no failure was forced", verdict)
+
+
+def check_run_user(ctx):
+    """_run_user of both runners: the user function's exception (any) becomes a recorded failure and a sentinel result."""
+    for clsname in ("SynchronousDeferredRunTest", ADRT):
+        cls, f = _method(ctx, clsname, "_run_user")
+        problems = set()
+
+        def oracle(n, pos, kw):
+            if n == "fn.__call__":
+                return [("val", ("sym", "user-result")), ("exc", USER_ERROR), ("exc", INTERRUPT)]
+            return None
+
+        dom = DeferredDomain(ctx.classes, attrs={"self": ("self",)}, results={"self._got_user_failure": [SENTINEL]}, track=lambda d: d == "self._got_user_failure", oracle=oracle, log_cap=20)
+        res = effects.run(ctx, dom, f, cls, {"function": ("wobj", "fn"), "args": ("tuple", ("sym", "arg-1")), "kwargs": ("kwdict", (("k", ("sym", "kw-1")),))}, state=State(), depth=6)
+        seen = set()
+        for r in res:
+            log = r.state.get("ev.calls", ())
+            calls_ = [e for e in log if e[0] == "fn.__call__"]
+            if len(calls_) != 1:
+                problems.add(f"the user function is called {len(calls_)} times")
+                continue
+            c = calls_[0]
+            seen.add(c[3])
+            if c[1] != (("sym", "arg-1"),) or dict(c[2]) != {"k": ("sym", "kw-1")}:
+                problems.add("the user function does not receive the given arguments")
+            guf = [e for e in log if e[0] == "self._got_user_failure"]
+            how = {"ok": "returns", "UserError": "raises an Exception", "KeyboardInterrupt": "raises a BaseException"}[c[3]]
+            if r.kind != "val":
+                problems.add(f"when the user function {how}, _run_user raises {r.value!r}")
+                continue
+            value = dom.result_of(r.state, r.value) if is_dfr(r.value) else ("ok", r.value)
+            if c[3] == "ok":
+                if guf or value != ("ok", ("sym", "user-result")):
+                    problems.add(f"when the user function returns, _run_user yields {value!r} and records {len(guf)} failure(s)")
+            else:
+                if len(guf) != 1 or not (guf[0][1] and is_failure(guf[0][1][0]) and guf[0][1][0][1] == (USER_ERROR if c[3] == "UserError" else INTERRUPT)):
+                    problems.add(f"when the user function {how}, the failure is handed to _got_user_failure {len(guf)} time(s): it would be lost or escape the runner")
+                if value != ("ok", SENTINEL):
+                    problems.add(f"when the user function {how}, _run_user yields {value!r} instead of the sentinel returned by _got_user_failure")
+        if seen != {"ok", "UserError", "KeyboardInterrupt"}:
+            problems.add(f"the model could not follow the user function through return / Exception / BaseException (saw {sorted(seen)})")
+        ctx.check("R-CATCH-ALL", f"{clsname}._run_user: any exception of the user function becomes a recorded failure and the sentinel", f, not problems,
+                  "; ".join(sorted(problems)), examined=len(res), construct=f"{TWRUNTEST}:{clsname}._run_user::catch-all")
+
+
+def check_run_cleanups(ctx):
+    cls, f = _method(ctx, ADRT, "_run_cleanups")
+    C1, C2 = ("wobj", "cleanup1"), ("wobj", "cleanup2")
+
+    def oracle(n, pos, kw):
+        if n in ("cleanup1.__call__", "cleanup2.__call__"):
+            who = n.split(".")[0]
+            return [("val", NONE), ("exc", USER_ERROR + (who,)), ("exc", INTERRUPT + (who,))]
+        if n.startswith("case."):
+            return [("val", NONE)]
+        return None
+
+    dom = DeferredDomain(ctx.classes, attrs={"self": ("self",), "self.case": CASE}, oracle=oracle, log_cap=20)
+    entry = ("tuple", ("tuple", C1, ("tuple", ("sym", "a1")), ("kwdict", ())), ("tuple", C2, ("tuple",), ("kwdict", ())))
+    res = effects.run(ctx, dom, f, cls, {}, state=State([("self.case._cleanups", entry)]), depth=5)
+    problems = set()
+    seen = set()
+    for r in res:
+        log = r.state.get("ev.calls", ())
+        calls_ = [e for e in log if e[0].endswith(".__call__")]
+        fates = tuple(e[3] for e in calls_)
+        seen.add(fates)
+        if [e[0] for e in calls_] != ["cleanup2.__call__", "cleanup1.__call__"]:
+            problems.add(f"with outcomes {fates} the cleanups called are {[e[0].split('.')[0] for e in calls_]}: every cleanup must run, last registered first, also after an earlier one raised (even a BaseException)")
+            continue
+        if calls_[1][1] != (("sym", "a1"),):
+            problems.add("a cleanup does not receive its registered arguments")
+        raised = [("exc", e[3], e[0].split(".")[0]) for e in calls_ if e[3] != "ok"]
+        reports = [e[1] for e in log if e[0] == "case._report_traceback"]
+        if reports != [(effects.exc_info_of(x),) for x in raised]:
+            problems.add(f"with outcomes {fates}: the tracebacks reported through case._report_traceback are {reports!r}; expected one (type, value, traceback) per failing cleanup")
+        if r.kind != "val":
+            problems.add(f"with outcomes {fates} _run_cleanups raises {r.value!r} instead of returning the exception")
+            continue
+        want = raised[-1] if raised else NONE
+        if r.value != want:
+            problems.add(f"with outcomes {fates} _run_cleanups returns {r.value!r}; expected {'the exception of the last failing cleanup' if raised else 'None'}")
+        if r.state.get("self.case._cleanups", None) != ("tuple",):
+            problems.add("cleanups are left on the case after _run_cleanups")
+    if len(seen) < 9:
+        problems.add(f"only {len(seen)} of the 9 outcome combinations of two cleanups were reached")
+    ctx.check("R-CATCH-ALL", "_run_cleanups runs every cleanup LIFO whatever the earlier ones raise, reports each failure and returns the last exception", f, not problems,
+              "; ".join(sorted(problems)[:4]), examined=len(res), construct=f"{TWRUNTEST}:{ADRT}._run_cleanups::catch-all")
+    from ..astutil import dotted
+    ok = any((dotted(d) or "").split(".")[-1] == "inlineCallbacks" for d in f.decorator_list)
+    ctx.check("R-STAGE-CHAIN", "_run_cleanups waits for Deferred-returning cleanups (inlineCallbacks)", f, ok, "_run_cleanups is no longer an inlineCallbacks generator: asynchronous cleanups would not be waited for",
+              construct=f"{TWRUNTEST}:{ADRT}._run_cleanups::inlineCallbacks")
+
+
+def check_log_user_exception(ctx):
+    cls, f = _method(ctx, ADRT, "_log_user_exception")
+    ERR = ("wobj", "the-error")
+    dom = effects.EffectDomain(ctx.classes, attrs={"self": ("self",)}, results={"self._got_user_exception": [SENTINEL]}, track=lambda d: d == "self._got_user_exception")
+    res = effects.run(ctx, dom, f, cls, {f.args.args[1].arg: ERR}, state=State(), depth=3)
+    normal = [r for r in res if r.kind == "val"]
+    problems = set()
+    if not normal:
+        problems.add("no path records the exception")
+    for r in normal:
+        rec = [e for e in r.state.get("ev.calls", ()) if e[0] == "self._got_user_exception"]
+        if len(rec) != 1 or not (rec[0][1] and isinstance(rec[0][1][0], tuple) and rec[0][1][0][:1] == ("tuple",) and len(rec[0][1][0]) == 4 and rec[0][1][0][2] == ERR):
+            problems.add("the exception is not recorded exactly once through _got_user_exception(sys.exc_info()) (so that it has a traceback)")
+    for r in res:
+        if r.kind == "exc" and r.value != ERR:
+            problems.add(f"_log_user_exception raises {r.value!r}")
+    ctx.check("R-CATCH-ALL", "_log_user_exception raises and records through _got_user_exception", f, not problems, "; ".join(sorted(problems)), examined=len(res),
+              construct=f"{TWRUNTEST}:{ADRT}._log_user_exception::records")
+
+
+# ------------------------------------------------------------------------------------------------ observers
+def check_observers(ctx):
+    O1, O2 = ("sym", "observer-1"), ("sym", "observer-2")
+    PUB = ("wobj", "pub")
+    for clsname, act, undo, setup in (("_NoTwistedLogObservers", "removeObserver", "addObserver", "removed"), ("_TwistedLogObservers", "addObserver", "removeObserver", "added")):
+        cls, f = _method(ctx, clsname, "_setUp")
+
+        def oracle(n, pos, kw, act=act):
+            if n == f"pub.{act}":
+                return [("val", NONE), ("exc", ("exc", "ObserverError"))]
+            return None
+
+        dom = effects.EffectDomain(ctx.classes, attrs={"self": ("self",), "self._observers": ("tuple", O1, O2), "self._log_publisher": PUB},
+                                   results={"_get_global_publisher_and_observers": [("tuple", PUB, ("tuple", O1, O2))], "self.addCleanup": [NONE]},
+                                   track=lambda d: d == "self.addCleanup", oracle=oracle, log_cap=20)
+        res = effects.run(ctx, dom, f, cls, {}, state=State(), depth=3)
+        problems = set()
+        complete = False
+        for r in res:
+            log = r.state.get("ev.calls", ())
+            acted = [e[1][0] for e in log if e[0] == f"pub.{act}" and e[3] == "ok" and e[1]]
+            cleanups = [e[1] for e in log if e[0] == "self.addCleanup"]
+            for o in acted:
+                if (("bound", "pub", undo), o) not in cleanups:
+                    problems.add(f"an observer is {setup} without a cleanup that calls {undo} for it being registered" + (" (on the path where a later one raises)" if r.kind == "exc" else "")
+                                 + ": Twisted's log observers would not be restored")
+            for c in cleanups:
+                if len(c) != 2 or c[0] != ("bound", "pub", undo) or c[1] not in acted:
+                    problems.add(f"a cleanup {c!r} is registered that does not undo one of this fixture's own changes")
+            if r.kind == "val":
+                complete = complete or sorted(map(repr, acted)) == sorted(map(repr, [O1, O2]))
+                if sorted(map(repr, acted)) != sorted(map(repr, [O1, O2])):
+                    problems.add(f"only {acted} of the observers are {setup}")
+        if not complete:
+            problems.add("no path handles every observer")
+        ctx.check("R-OBSERVER-PAIR", f"{clsname}._setUp: every observer {setup} is restored by a cleanup registered with it", f, not problems, "; ".join(sorted(problems)), examined=len(res),
+                  construct=f"{TWRUNTEST}:{clsname}._setUp::pair")
+    # the publisher and all of its observers
+    from .common import module_function
+    g = module_function(ctx, TWRUNTEST, "_get_global_publisher_and_observers")
+    problems = set()
+    n = 0
+    for glp, want in ((("wobj", "modern"), ("tuple", ("wobj", "modern"), ("tuple", O1, O2))), (NONE, ("tuple", ("wobj", "legacy"), ("tuple", O2)))):
+        dom = effects.EffectDomain(ctx.classes, attrs={"globalLogPublisher": glp, "log.theLogPublisher": ("wobj", "legacy"), "modern._observers": ("tuple", O1, O2), "legacy.observers": ("tuple", O2),
+                                                       "modern.observers": ("tuple",), "legacy._observers": ("tuple",)})
+        res = effects.run(ctx, dom, g, None, {}, state=State(), depth=2)
+        n += len(res)
+        for r in res:
+            if r.kind != "val" or r.value != want:
+                problems.add(f"with {'the twisted.logger publisher' if glp != NONE else 'only the legacy publisher'} the function yields {r.value!r}; expected the publisher with the list of all its observers")
+    ctx.check("R-OBSERVER-PAIR", "all currently installed observers of the global publisher are found", g, not problems, "; ".join(sorted(problems)), examined=n,
+              construct=f"{TWRUNTEST}:_get_global_publisher_and_observers::all")
+    cls, glf = _method(ctx, ADRT, "_get_log_fixture")
+    problems = set()
+    n = 0
+    for suppress in (True, False):
+        for store in (True, False):
+            dom = effects.EffectDomain(ctx.classes, attrs={"self": ("self",), "self._suppress_twisted_logging": TRUE if suppress else FALSE, "self._store_twisted_logs": TRUE if store else FALSE},
+                                       ctors={"_NoTwistedLogObservers", "CaptureTwistedLogs", "CompoundFixture"})
+            res = effects.run(ctx, dom, glf, cls, {}, state=State(), depth=2)
+            n += len(res)
+            want = ([("new", "_NoTwistedLogObservers", (), ())] if suppress else []) + ([("new", "CaptureTwistedLogs", (), ())] if store else [])
+            for r in res:
+                members = None
+                if r.kind == "val" and isinstance(r.value, tuple) and r.value[:2] == ("new", "CompoundFixture") and len(r.value[2]) == 1:
+                    members = list(r.value[2][0][1:]) if isinstance(r.value[2][0], tuple) and r.value[2][0][:1] == ("tuple",) else None
+                if members is None or sorted(map(repr, members)) != sorted(map(repr, want)):
+                    problems.add(f"with suppress_twisted_logging={suppress}, store_twisted_logs={store} the log fixture is {r.value!r}")
+    ctx.check("R-OBSERVER-PAIR", "log suppression / capture fixtures are selected by their options", glf, not problems, "; ".join(sorted(problems)[:3]), examined=n,
+              construct=f"{TWRUNTEST}:{ADRT}._get_log_fixture::options")
 
 
 def run(ctx):
@@ -92,231 +492,15 @@ def run(ctx):
     ctx.rule("R-STAGE-CHAIN", "_run_deferred chains the stages in order and marks every failed stage")
     ctx.rule("R-OBSERVER-PAIR", "log observers are restored by cleanups paired with their removal / addition")
     ctx.rule("R-SPINNER-ERRORS-HANDLED", "spinner TimeoutError / NoResultError are handled and recorded; interrupt stops the result")
-    classes = ctx.classes
-    adrt = classes.get(TWRUNTEST, ADRT)
-    Q = f"{TWRUNTEST}:{ADRT}"
-
-    # ------------------------------------------------------------------ single success
-    core = own_method(ctx, TWRUNTEST, ADRT, "_run_core")
-    brd_f = own_method(ctx, TWRUNTEST, ADRT, "_blocking_run_deferred")
-    dom = CoreDomain(brd_f)
-    it = Interp(dom, max_depth=3)
-    res = it.analyze(core, {}, State([("ev.success", 0), ("ev.recorded", 0)]), receiver=adrt, name="_run_core")
-    ctx.stats["states"] += it.steps
-    ctx.analysed(core)
-    ctx.analysed(brd_f)
-    combos = {}
-    for r in res:
-        if r.kind != "val":
-            continue
-        s = r.state
-        key = (s.get("src.run", "?"), s.get("src.logged", "?"), s.get("src.unhandled", "?"), s.get("src.junk", "?"))
-        combos.setdefault(key, set()).add((s.get("ev.success", 0), s.get("ev.recorded", 0), s.get("ev.stop", 0)))
-    for key, outs in sorted(combos.items(), key=repr):
-        run, logged, unhandled, junk = key
-        yn = lambda v: "yes" if v == NONEMPTY else ("no" if v == EMPTY else "NOT COLLECTED")
-        label = f"run={run} logged-errors={yn(logged)} unhandled={yn(unhandled)} junk={yn(junk)}"
-        if logged == "?" or junk == "?" or run == "?":
-            what = "the errors logged during the test are not flushed from the (process-wide) observer" if logged == "?" else "the spinner's junk is not collected" if junk == "?" else "the blocking run is skipped"
-            ctx.check("R-SINGLE-SUCCESS", f"_run_core: {label}", core, False,
-                      f"on the path with {label}, {what}: it is neither reported for this test nor discarded, and surfaces in the next test run in the same process",
-                      construct=f"{Q}._run_core::{label}")
-            continue
-        clean = run == "ok" and logged == EMPTY and unhandled == EMPTY and junk == EMPTY
-        dirty_static = sum(1 for v in (logged, unhandled, junk) if v == NONEMPTY) + (1 if run in ("timeout", "interrupted") else 0)
-        good = all((succ == (1 if clean else 0)) and (dirty_static == 0 or rec >= 1) for succ, rec, stop in outs) and len(outs) >= 1
-        if run == "interrupted":
-            good = good and all(stop == 1 for succ, rec, stop in outs)
-        ctx.check("R-SINGLE-SUCCESS", f"_run_core: {label} -> success x{sorted(o[0] for o in outs)}", core, good,
-                  f"with {label} the runner reports addSuccess {sorted(o[0] for o in outs)} time(s), records {sorted(o[1] for o in outs)} exception(s)"
-                  + (f", result.stop() x{sorted(o[2] for o in outs)}" if run == "interrupted" else "") + ": "
-                  + ("success must be reported exactly once" if clean else "no success may be reported and every dirty source must record an exception"
-                     + (" and an interrupted run must ask the result to stop" if run == "interrupted" else "")),
-                  construct=f"{Q}._run_core::{label}")
-    ctx.check("R-SINGLE-SUCCESS", f"all 24 combinations of the problem sources explored ({len(combos)})", core, len(combos) == 24,
-              f"{len(combos)} combinations reached a normal exit (16 for a completed run, 4 each for a timed-out and an interrupted one)", examined=len(res), construct=f"{Q}._run_core::combos")
-    # each dirty source records through the right call, inside its own arm
-    arms = {"flush_logged_errors": "self._got_user_failure", "unhandled": "self._got_user_failure", "junk": "self._log_user_exception"}
-    for src, rec in arms.items():
-        found = False
-        for n in walk_shallow(core, include_self=False):
-            if src == "flush_logged_errors" and isinstance(n, ast.For) and src in norm(n.iter):
-                found = any(isinstance(c, ast.Call) and dotted(c.func) == rec and c.args and dotted(c.args[0]) == dotted(n.target) for c in walk_shallow(n)) and any(
-                    isinstance(a, ast.Assign) and dotted(a.targets[0]) == "successful" and isinstance(a.value, ast.Constant) and a.value.value is False for a in walk_shallow(n))
-            if src == "unhandled" and isinstance(n, ast.If) and norm(n.test) == "unhandled":
-                loops = [l for l in n.body if isinstance(l, ast.For) and dotted(l.iter) == "unhandled"]
-                found = bool(loops) and any(isinstance(c, ast.Call) and dotted(c.func) == rec for c in walk_shallow(loops[0])) and any(
-                    isinstance(a, ast.Assign) and dotted(a.targets[0]) == "successful" and isinstance(a.value, ast.Constant) and a.value.value is False for a in n.body)
-            if src == "junk" and isinstance(n, ast.If) and norm(n.test) == "junk":
-                found = any(isinstance(c, ast.Call) and dotted(c.func) == rec and "UncleanReactorError(junk)" in norm(c) for s in n.body for c in walk_shallow(s)) and any(
-                    isinstance(a, ast.Assign) and dotted(a.targets[0]) == "successful" and isinstance(a.value, ast.Constant) and a.value.value is False for a in n.body)
-        ctx.check("R-SINGLE-SUCCESS", f"_run_core: the {src} arm clears `successful` and records via {rec.split('.')[-1]}", core, found,
-                  f"the {src} arm does not both set successful = False and record an exception for every item", construct=f"{Q}._run_core::arm {src}")
-    succ = [c for c in walk_shallow(core, include_self=False) if isinstance(c, ast.Call) and dotted(c.func) == "self.result.addSuccess"]
-    ok = len(succ) == 1 and "details=self.case.getDetails()" in norm(succ[0]) and isinstance(succ[0]._parent._parent, ast.If) and norm(succ[0]._parent._parent.test) == "successful"
-    ctx.check("R-SINGLE-SUCCESS", "the single addSuccess is guarded by `successful` and carries the details", core, ok, "addSuccess is not reported once under `if successful:` with details", construct=f"{Q}._run_core::guard")
-    rd = own_method(ctx, TWRUNTEST, ADRT, "_run_deferred")
-    last = [c for c in walk_shallow(rd, include_self=False) if isinstance(c, ast.Call) and isinstance(c.func, ast.Attribute) and c.func.attr == "addBoth" and c.args and isinstance(c.args[0], ast.Lambda)]
-    ok = len(last) == 1 and norm(last[0].args[0].body) == "len(fails) == 0"
-    ctx.check("R-SINGLE-SUCCESS", "_run_deferred fires with True iff no stage was marked failed", rd, ok, "the Deferred's final value is not `len(fails) == 0`", construct=f"{Q}._run_deferred::verdict")
-
-    # ------------------------------------------------------------------ catch-all siblings
-    n_sites = 0
-    for cname in ("SynchronousDeferredRunTest", ADRT):
-        c = classes.get(TWRUNTEST, cname)
-        for mname, f in c.methods.items():
-            ctx.analysed(f)
-            # (a) maybeDeferred(user function) must get the catch-all errback before it is handed on
-            for call in walk_shallow(f, include_self=False):
-                if isinstance(call, ast.Call) and dotted(call.func) == "defer.maybeDeferred":
-                    n_sites += 1
-                    st_ = call
-                    while not isinstance(st_, ast.stmt):
-                        st_ = st_._parent
-                    var = dotted(st_.targets[0]) if isinstance(st_, ast.Assign) else None
-                    errbacks = [x for x in walk_shallow(f, include_self=False) if isinstance(x, ast.Call) and dotted(x.func) == f"{var}.addErrback" and x.args and dotted(x.args[0]) == "self._got_user_failure"]
-                    tries = []
-                    p = None
-                    # the Deferred is awaited inside a try: its handler must be catch-all
-                    for y in walk_shallow(f, include_self=False):
-                        if isinstance(y, ast.Yield) and dotted(y.value) == var:
-                            q = y
-                            while q is not None and q is not f:
-                                par = getattr(q, "_parent", None)
-                                if isinstance(par, ast.Try) and any(q is s or any(q is w for w in ast.walk(s)) for s in par.body):
-                                    tries.append(par)
-                                q = par
-                    if errbacks:
-                        ok, msg = True, ""
-                    elif tries:
-                        hs = [h for t in tries for h in t.handlers]
-                        ok = any(handler_is_catch_all(h) for h in hs)
-                        msg = (f"the Deferred of a user function is awaited under `except {', '.join(n for h in hs for n in handler_names(h))}`: a cleanup raising SystemExit / "
-                               "KeyboardInterrupt escapes the generator, the failure is then discarded, the remaining cleanups never run and the test is reported successful")
-                    else:
-                        ok, msg = False, "the Deferred of a user function gets neither the _got_user_failure errback nor a catch-all handler"
-                    ctx.check("R-CATCH-ALL", f"{cname}.{mname}: maybeDeferred({norm(call.args[0]) if call.args else ''}, ...)", call, ok, msg,
-                              construct=f"{TWRUNTEST}:{cname}.{mname}::maybeDeferred catch-all")
-    ctx.floor("R-CATCH-ALL", 3, "user-code invocation sites in the Twisted runners")
-    lue = own_method(ctx, TWRUNTEST, ADRT, "_log_user_exception")
-    ok = any(isinstance(t, ast.Try) and any(isinstance(s, ast.Raise) for s in t.body) and any(
-        isinstance(c, ast.Call) and dotted(c.func) == "self._got_user_exception" for h in t.handlers for c in walk_shallow(h)) for t in walk_shallow(lue, include_self=False))
-    ctx.check("R-CATCH-ALL", "_log_user_exception raises and records through _got_user_exception", lue, ok, "_log_user_exception no longer records the exception", construct=f"{Q}._log_user_exception::records")
-
-    # ------------------------------------------------------------------ stage chain
-    inner = {f.name: f for f in rd.body if isinstance(f, FUNC_TYPES)}
-    need = {"fail_if_exception_caught", "clean_up", "set_up_done", "tear_down", "force_failure"}
-    if not need <= set(inner):
-        raise Undecided(f"_run_deferred no longer defines the stage callbacks {sorted(need - set(inner))}: the chain idiom is not one this rule understands")
-    ctx.check("R-STAGE-CHAIN", "_run_deferred defines its five stage callbacks", rd, True, construct=f"{Q}._run_deferred::callbacks")
-
-    def canon(stmts, keep):
-        """Normalised statement texts with local variable names alpha-renamed (v0, v1, ...)."""
-        mapping = {}
-        out = []
-        for st_ in stmts:
-            tree = ast.parse(norm(st_))
-            for n in ast.walk(tree):
-                if isinstance(n, ast.Name) and n.id not in keep and not (n.id in __builtins_names):
-                    if n.id not in mapping:
-                        mapping[n.id] = f"v{len(mapping)}"
-                    n.id = mapping[n.id]
-                if isinstance(n, ast.arg):
-                    if n.arg not in mapping:
-                        mapping[n.arg] = f"v{len(mapping)}"
-                    n.arg = mapping[n.arg]
-            out.append(ast.unparse(tree))
-        return out
-
-    __builtins_names = {"len", "None", "True", "False", "getattr"}
-    keep = set(inner) | {"self", "fails", "_raise_force_fail_error"}
-    if True:
-        top = canon([s for s in rd.body if isinstance(s, (ast.Assign, ast.Expr, ast.Return)) and not (isinstance(s, ast.Expr) and isinstance(s.value, ast.Constant))], keep)
-        want_top = ["fails = []", "v0 = self._run_user(self.case._run_setup, self.result)", "v0.addCallback(set_up_done)", "v0.addBoth(force_failure)", "v0.addBoth(lambda v1: len(fails) == 0)", "return v0"]
-        ctx.check("R-STAGE-CHAIN", "setUp first, then set_up_done, then force_failure, then the verdict", rd, top == want_top, f"top-level chain is {top}", construct=f"{Q}._run_deferred::top-chain")
-        sud = inner["set_up_done"]
-        ifs = [s for s in sud.body if isinstance(s, ast.If)]
-        ok = False
-        if len(ifs) == 1:
-            t = ifs[0]
-            fail_arm = canon(t.body, keep)
-            ok_arm = canon(t.orelse, keep)
-            p0 = sud.args.args[0].arg
-            ok = (norm(t.test) in (f"self.exception_caught == {p0}", f"{p0} == self.exception_caught") and fail_arm == ["fails.append(None)", "return clean_up()"]
-                  and ok_arm == ["v0 = self._run_user(self.case._run_test_method, self.result)", "v0.addCallback(fail_if_exception_caught)", "v0.addBoth(tear_down)", "return v0"])
-        ctx.check("R-STAGE-CHAIN", "setUp failed -> cleanups only; else test method, then tearDown on both outcomes", sud, ok,
-                  "set_up_done no longer runs the test iff setUp succeeded and tearDown after the test whatever happened", construct=f"{Q}._run_deferred::set_up_done")
-        td = inner["tear_down"]
-        ok = canon(td.body, keep) == ["v0 = self._run_user(self.case._run_teardown, self.result)", "v0.addCallback(fail_if_exception_caught)", "v0.addBoth(clean_up)", "return v0"]
-        ctx.check("R-STAGE-CHAIN", "tearDown, then cleanups on both outcomes", td, ok, "tear_down no longer chains the cleanups with addBoth", construct=f"{Q}._run_deferred::tear_down")
-        fi = inner["fail_if_exception_caught"]
-        ok = any(isinstance(n, ast.If) and norm(n.test) in (f"self.exception_caught == {fi.args.args[0].arg}", f"{fi.args.args[0].arg} == self.exception_caught") and [norm(s) for s in n.body] == ["fails.append(None)"] for n in fi.body)
-        ctx.check("R-STAGE-CHAIN", "a stage that reported the sentinel is marked failed", fi, ok, "fail_if_exception_caught no longer marks sentinel results", construct=f"{Q}._run_deferred::mark-failed")
-        cu = inner["clean_up"]
-        done = [f for f in cu.body if isinstance(f, FUNC_TYPES)]
-        ok = len(done) == 1 and any(isinstance(n, ast.If) and norm(n.test) == "result is not None" and {"self._exceptions.append(result)", "fails.append(None)"} <= {norm(s) for s in n.body} for n in done[0].body) and any(
-            isinstance(s, ast.Assign) and norm(s.value) == "self._run_cleanups()" for s in cu.body) and any(isinstance(s, ast.Return) and "addCallback(clean_up_done)" in norm(s) for s in cu.body)
-        ctx.check("R-STAGE-CHAIN", "a cleanup failure is recorded and marks the run failed", cu, ok, "clean_up no longer records the last cleanup exception and marks failure", construct=f"{Q}._run_deferred::clean_up")
-        ff = inner["force_failure"]
-        ok = any(isinstance(n, ast.If) and "force_failure" in norm(n.test) and any("self._run_user(_raise_force_fail_error)" in norm(s) for s in n.body) and any("addCallback(fails.append)" in norm(s) for s in n.body) for n in ff.body)
-        ctx.check("R-STAGE-CHAIN", "a forced failure is raised through _run_user and marks the run failed", ff, ok, "force_failure arm changed", construct=f"{Q}._run_deferred::force_failure")
-    rcl = own_method(ctx, TWRUNTEST, ADRT, "_run_cleanups")
-    ok = any(isinstance(c, ast.Call) and dotted(c.func) == "self.case._report_traceback" for c in ast.walk(rcl)) and any(
-        isinstance(r, ast.Return) and dotted(r.value) == "last_exception" for r in ast.walk(rcl)) and "inlineCallbacks" in " ".join(norm(d) for d in rcl.decorator_list)
-    ctx.check("R-STAGE-CHAIN", "async cleanups report each failure's traceback and return the last exception", rcl, ok, "_run_cleanups no longer reports/returns cleanup failures", construct=f"{Q}._run_cleanups::reports")
-
-    # ------------------------------------------------------------------ observers
-    nol = own_method(ctx, TWRUNTEST, "_NoTwistedLogObservers", "_setUp")
-    loops = [l for l in nol.body if isinstance(l, ast.For)]
-    ok = False
-    if len(loops) == 1 and isinstance(loops[0].target, ast.Name):
-        v = loops[0].target.id
-        body = [norm(s) for s in loops[0].body]
-        ok = body == [f"publisher.removeObserver({v})", f"self.addCleanup(publisher.addObserver, {v})"]
-    ctx.check("R-OBSERVER-PAIR", "every removed observer is re-added by a cleanup registered in the same iteration", nol, ok,
-              "an observer can be removed without its re-adding cleanup being registered (Twisted's log observers would not be restored)", construct=f"{TWRUNTEST}:_NoTwistedLogObservers._setUp::pair")
-    ok = any("real_observers" in norm(l.iter) for l in loops) and any(isinstance(s, ast.Assign) and "_get_global_publisher_and_observers()" in norm(s.value) for s in nol.body)
-    ctx.check("R-OBSERVER-PAIR", "all currently installed observers are removed", nol, ok, "not every installed observer is handled", construct=f"{TWRUNTEST}:_NoTwistedLogObservers._setUp::all")
-    tlo = own_method(ctx, TWRUNTEST, "_TwistedLogObservers", "_setUp")
-    loops = [l for l in tlo.body if isinstance(l, ast.For)]
-    ok = False
-    if len(loops) == 1 and isinstance(loops[0].target, ast.Name):
-        v = loops[0].target.id
-        body = [norm(s) for s in loops[0].body]
-        ok = body == [f"self._log_publisher.addObserver({v})", f"self.addCleanup(self._log_publisher.removeObserver, {v})"] and dotted(loops[0].iter) == "self._observers"
-    ctx.check("R-OBSERVER-PAIR", "every added observer is removed by a cleanup registered in the same iteration", tlo, ok,
-              "an observer can be added without its removal being registered", construct=f"{TWRUNTEST}:_TwistedLogObservers._setUp::pair")
-    withs = [w for w in ast.walk(core) if isinstance(w, ast.With)]
-    blocking = [c for c in ast.walk(core) if isinstance(c, ast.Call) and dotted(c.func) == "self._blocking_run_deferred"]
-    ok = len(blocking) == 1 and sum(1 for w in withs if any(x is blocking[0] for x in ast.walk(w))) == 2 and any("_get_log_fixture()" in norm(w.items[0].context_expr) for w in withs) and any(
-        "_ErrorObserver(" in norm(w.items[0].context_expr) for w in withs)
-    ctx.check("R-OBSERVER-PAIR", "the blocking run happens inside the log-fixture and error-observer `with` blocks", core, ok,
-              "the reactor is spun outside the fixtures: observers would not be restored on timeout / interrupt", construct=f"{Q}._run_core::inside-with")
-    glf = own_method(ctx, TWRUNTEST, ADRT, "_get_log_fixture")
-    ok = any(isinstance(n, ast.If) and norm(n.test) == "self._suppress_twisted_logging" and "_NoTwistedLogObservers()" in " ".join(norm(s) for s in n.body) for n in glf.body) and any(
-        isinstance(n, ast.If) and norm(n.test) == "self._store_twisted_logs" and "CaptureTwistedLogs()" in " ".join(norm(s) for s in n.body) for n in glf.body)
-    ctx.check("R-OBSERVER-PAIR", "log suppression / capture fixtures are selected by their options", glf, ok, "_get_log_fixture changed", construct=f"{Q}._get_log_fixture::options")
-
-    # ------------------------------------------------------------------ spinner errors
-    brd = own_method(ctx, TWRUNTEST, ADRT, "_blocking_run_deferred")
-    tries = [t for t in brd.body if isinstance(t, ast.Try)]
-    ok = len(tries) == 1
-    handled = {}
-    if ok:
-        for h in tries[0].handlers:
-            for n in handler_names(h):
-                handled[n] = h
-    for ename, recorder in (("NoResultError", "self._got_user_exception"), ("TimeoutError", "self._log_user_exception")):
-        h = handled.get(ename)
-        # (that the run then ends unsuccessfully, with everything collected, is decided by R-SINGLE-SUCCESS's abstract run)
-        ok = h is not None and any(isinstance(c, ast.Call) and dotted(c.func) == recorder for c in walk_shallow(h))
-        ctx.check("R-SPINNER-ERRORS-HANDLED", f"{ename} from the spinner is recorded through {recorder.split('.')[-1]}", h if h is not None else brd, ok,
-                  f"{ename} is not handled by recording an exception through {recorder}", construct=f"{Q}._blocking_run_deferred::{ename}")
-    h = handled.get("NoResultError")
-    ok = h is not None and any(isinstance(c, ast.Call) and dotted(c.func) == "self.result.stop" for c in walk_shallow(h))
-    ctx.check("R-SPINNER-ERRORS-HANDLED", "an interrupted run asks the result to stop", h if h is not None else brd, ok, "the NoResultError arm no longer calls self.result.stop()",
-              construct=f"{Q}._blocking_run_deferred::stop")
-    body_calls = [c for s in (tries[0].body if tries else []) for c in walk_shallow(s) if isinstance(c, ast.Call) and dotted(c.func) == "trap_unhandled_errors"]
-    ok = len(body_calls) == 1 and [norm(a) for a in body_calls[0].args] == ["spinner.run", "self._timeout", "self._run_deferred"]
-    ctx.check("R-SPINNER-ERRORS-HANDLED", "the run is spun with the configured timeout under trap_unhandled_errors", brd, ok, "the blocking run call changed", construct=f"{Q}._blocking_run_deferred::call")
-    ctx.assume("stage exceptions are recorded by the errback added in _run_user before any stage callback sees the sentinel")
+    check_run_core(ctx)
+    check_stage_chain(ctx)
+    check_run_user(ctx)
+    check_run_cleanups(ctx)
+    check_log_user_exception(ctx)
+    check_observers(ctx)
+    ctx.floor("R-SINGLE-SUCCESS", 17)
+    ctx.floor("R-SPINNER-ERRORS-HANDLED", 8)
+    ctx.floor("R-CATCH-ALL", 5)
+    ctx.floor("R-STAGE-CHAIN", 4)
+    ctx.floor("R-OBSERVER-PAIR", 4)
+    ctx.assume("Deferred chains are interpreted with already-fired Deferreds: a chain's final result does not depend on when its Deferreds fire")
